@@ -343,6 +343,8 @@ func init() {
 	}
 	ext("C05", "Twirp error bodies for 17 status messages that need JSON escaping (control characters, DEL, quotes, backslashes, markup, non-ASCII, non-BMP, U+2028/9, format verbs, empty) x 16 codes: valid JSON (independent RFC 8259 reader) carrying the Twirp code name and exactly the message",
 		HarnessSpec{Name: "VerifH_twirp_escape", Covers: []string{"twirp-escaped"}})
+	ext("C05", "status details: a failing handler's status with 1..2 details (Any values, 0..2 symbolic payload bytes each), 16 codes, empty and non-empty message, on gRPC, gRPC-web (trailer frame and trailers-only) and HTTP transcoding; grpc-status-details-bin is decoded with an independent base64 and protobuf wire reader (proto.Marshal of google.rpc.Status modelled byte-exactly, the real one runs in replays)",
+		HarnessSpec{Name: "VerifH_status_details", Covers: []string{"grpc", "web-trailers-only", "http", "empty-message"}})
 	wkt := "well-known-type parameters (google.protobuf wrappers, FieldMask, Duration, Timestamp) through the real parseQueryParams / parseParam / quote / params.set: the empty text for each of 10 types, a menu of 40 boundary texts (non-BMP strings, 32/64-bit limits, duration range and Go-style units, leap days, RFC 3339 range), symbolic texts of 1..3 (quick) / 1..4 (thorough) bytes for StringValue, BoolValue, Int32Value / UInt32Value, BytesValue, FieldMask; protojson's scalar forms modelled (model_wkt.go), generated messages seen through a fake reflection view"
 	for _, id := range []string{"C03", "C09", "C01"} {
 		ext(id, wkt, HarnessSpec{Name: "VerifH_params_wkt", Covers: []string{"empty-value", "menu-accepted", "menu-rejected", "string-wrapper", "bool-wrapper", "int-wrapper", "int-wrapper-rejected", "bytes-wrapper", "fieldmask", "fieldmask-rejected"}})
